@@ -451,22 +451,11 @@ func (l *Local) Allocate(ctx context.Context, cni *daemon.CNI, request ResourceR
 
 	if ok1 && ok2 {
 		// direct return
-		respCh := make(chan *AllocResp)
-		// assign ip to pod , as we are ready
-		// this must be protected by lock
-		if ipv4 != nil {
-			ipv4.Allocate(cni.PodID)
-		}
-		if ipv6 != nil {
-			ipv6.Allocate(cni.PodID)
-		}
-
-		go func() {
-			l.cond.L.Lock()
-			defer l.cond.L.Unlock()
-
-			l.commit(ctx, respCh, ipv4, ipv6, cni.PodID)
-		}()
+		// assign ip to pod and hand over the result while the lock is held, the buffered
+		// channel never blocks. A goroutine doing this later could run after the ip was
+		// released and given to another pod, and wipe that pod's ownership.
+		respCh := make(chan *AllocResp, 1)
+		l.commit(ctx, respCh, ipv4, ipv6, cni.PodID)
 		return respCh, nil
 	}
 
